@@ -33,15 +33,22 @@ else:
     _parse = ast.parse
 
 
-def _maybeAttribute(cls: model.Class, name: str) -> bool:
+def _maybeAttribute(cls: model.Class, name: str, value: Optional[ast.expr] = None) -> bool:
     """Check whether a name is a potential attribute of the given class.
     This is used to prevent an assignment that wraps a method from
     creating an attribute that would overwrite or shadow that method.
 
+    @param value: The value assigned to the name, if it's known. 
+        An inherited method is only considered when the value refers to its name: 
+        any other assignment binds a new attribute in the class instead of wrapping the method.
     @return: L{True} if the name does not exist or is an existing (possibly
         inherited) attribute, L{False} if this name defines something else than an L{Attribute}. 
     """
-    obj = cls.find(name)
+    obj = cls.contents.get(name)
+    if obj is None and value is not None and any(
+            getattr(n, 'id', None) == name or getattr(n, 'attr', None) == name 
+            for n in ast.walk(value)):
+        obj = cls.find(name)
     return obj is None or isinstance(obj, model.Attribute)
 
 
@@ -641,7 +648,7 @@ class ModuleVistor(NodeVisitor):
             ) -> None:
         cls = self.builder.current
         assert isinstance(cls, model.Class)
-        if not _maybeAttribute(cls, name):
+        if not _maybeAttribute(cls, name, expr):
             return
 
         # Class variables can only be Attribute, so it's OK to cast
@@ -676,7 +683,7 @@ class ModuleVistor(NodeVisitor):
         cls = func.parent
         if not isinstance(cls, model.Class):
             return
-        if not _maybeAttribute(cls, name):
+        if not _maybeAttribute(cls, name, expr):
             return
 
         # Class variables can only be Attribute, so it's OK to cast because we used _maybeAttribute() above.
